@@ -1,6 +1,8 @@
 (* C01 — the assembled image is the ISA encoding of the source. *)
 From Coq Require Import ZArith.
+From Coq Require Import List.
 From Lace Require Import Word Machine Isa Asm AsmProofs AsmWf.
+From Lace Require AsmLayout.
 Open Scope N_scope.
 
 (** Every word the assembler emits for a statement (operands as the parser delivers them)
@@ -65,3 +67,21 @@ Example C01_nonvacuous :
   emit (mkLine 1 (SLoadOffs 0 1 255) 0 13) = Ok 24703 /\ decode 24703 = LDR 0 1 65535 /\
   emit (mkLine 4 (SBranch 7 (LRef 1)) 0 0) = Ok 4092 /\ decode 4092 = BR 7 65532.
 Proof. vm_compute. repeat split; reflexivity. Qed.
+
+(** Re-laying out the text never changes the image.  After preprocessing a source is a list of
+    tokens; [AsmLayout.toks_sim] relates two such lists that agree in what the tokens ARE —
+    instruction / trap / directive kind, register number, the VALUE of a literal whatever its radix
+    or spelling (`#16`, `x10`, `0x10`), the NAME of a label, raw data words, breakpoint marks — and
+    differ arbitrarily in where they stand (offsets, lengths: separators, comments, blank lines
+    only move those) and in their spelling.  Two such sources assemble to the same origin, the same
+    words, the same breakpoints and leave the same symbol table — or both are rejected, with the
+    same diagnostic class.  (Which characters make which token is the lexer's definition, tied to
+    the code by the layout corpora of the correspondence check.) *)
+Theorem C01_layout : forall feat sym0 src src' toks toks',
+  preprocess feat (S (length src)) src 0 nil = Ok toks ->
+  preprocess feat (S (length src')) src' 0 nil = Ok toks' ->
+  AsmLayout.toks_sim toks toks' ->
+  AsmLayout.res_sim AsmLayout.image_sim (fst (assemble feat sym0 src)) (fst (assemble feat sym0 src')) /\
+  snd (assemble feat sym0 src) = snd (assemble feat sym0 src').
+Proof. exact AsmLayout.assemble_layout. Qed.
+Print Assumptions C01_layout.
